@@ -89,7 +89,7 @@ def api_cases(tier, rng):
             for kf in (0, 7, 8, 9):
                 lines.append("|".join(["void"] + ["i64"] * ki + ["f64"] * kf + [s, "i32", "f32", s]))
                 lines.append("|".join(["{i64,i64,i64}"] + ["i64"] * ki + ["f64"] * kf + [s, "i32", "f32", s]))
-    nrand = 2000 if tier == "quick" else 60000
+    nrand = 4000 if tier == "quick" else 60000
     for _ in range(nrand):
         lines.append(sig_line(rand_sig(rng)))
     return lines, exhaustive_n
